@@ -164,8 +164,8 @@ pub fn generate(seed: u64, idx: u64) -> Scenario {
     let (_, stream) = runner::session_bytes(&sc);
     let mut ends = vec![];
     let mut off = 0;
-    for st in &sc.script {
-        off += crate::h::client::frame_of(st).len();
+    for f in crate::h::client::frames_of(&sc.script) {
+        off += f.len();
         ends.push(off);
     }
     sc.segmentation = pick_segmentation(&mut rng, &stream, &ends);
